@@ -1026,8 +1026,14 @@ class Evaluator:
             elems = list(base)
         else:
             raise Unsupported(f"mutation `{attr}` of {type(base).__name__}: {unparse(e, 60)}")
+        ret: Any = Const(None)
         if attr == "append" and len(args) == 1:
             elems = elems + [args[0]]
+        elif attr == "pop" and not args:
+            if not elems:
+                raise AbsRaise("IndexError", "pop from empty list")
+            ret = elems[-1]
+            elems = elems[:-1]
         elif attr == "extend" and len(args) == 1 and (isinstance(args[0], (list, tuple)) or (isinstance(args[0], Const) and isinstance(args[0].v, (list, tuple)))):
             a = args[0]
             elems = elems + ([Const(x) for x in a.v] if isinstance(a, Const) else list(a))
@@ -1036,7 +1042,7 @@ class Evaluator:
         new: Any = Const([x.v for x in elems]) if all(isinstance(x, Const) for x in elems) else elems
         assert owner is not None
         owner.vars[recv.id] = new
-        return Const(None)
+        return ret
 
     def _callee_name(self, fn: Any, e: ast.Call, scope: Union[Func, Module]) -> str:
         if isinstance(fn, Closure):
